@@ -17,7 +17,7 @@ class Policy:
     def __init__(self, max_array=4, max_map=2, max_text=2, text_mode="concrete",
                  bytes_mode="opaque", max_bytes=2, max_depth=6, kinds=None,
                  max_total_entries=None, max_total_items=None, max_nested_array=None,
-                 max_nested_map=None):
+                 max_nested_map=None, root_kinds=None, root_lens=None, map_value_kinds=None):
         self.max_array, self.max_map, self.max_text = max_array, max_map, max_text
         self.text_mode, self.bytes_mode, self.max_bytes = text_mode, bytes_mode, max_bytes
         self.max_depth = max_depth
@@ -26,6 +26,8 @@ class Policy:
         self.max_total_entries, self.max_total_items = max_total_entries, max_total_items
         # arrays / maps below the root of the input
         self.max_nested_array, self.max_nested_map = max_nested_array, max_nested_map
+        # optional restrictions (stated bounds): kinds / lengths of the root item, kinds of map values
+        self.root_kinds, self.root_lens, self.map_value_kinds = root_kinds, root_lens, map_value_kinds
 
     def for_node(self, node):
         """Hook: harnesses subclass to vary bounds by position (node.path)."""
@@ -33,7 +35,8 @@ class Policy:
 
 
 class InputNode:
-    def __init__(self, path, policy, depth=0):
+    def __init__(self, path, policy, depth=0, role="item"):
+        self.role = role
         self.path = path
         self.policy = policy
         self.depth = depth
@@ -59,6 +62,10 @@ class InputNode:
             return self.kind
         pol = self.policy.for_node(self)
         kinds = [k for k in pol.kinds if (only is None or k in only)]
+        if self.depth == 0 and self.role == "item" and pol.root_kinds:
+            kinds = [k for k in kinds if k in pol.root_kinds]
+        if self.role == "value" and pol.map_value_kinds:
+            kinds = [k for k in kinds if k in pol.map_value_kinds]
         if self.depth >= pol.max_depth:
             kinds = [k for k in kinds if k not in ("Array", "Map", "Tag")] or kinds
         k = kinds[ctx.choose(len(kinds), "kind@" + self.path)]
@@ -86,7 +93,11 @@ class InputNode:
                 cap = pol.max_nested_array
             if pol.max_total_items is not None:
                 cap = max(0, min(cap, pol.max_total_items - ctx.side.get("items_used", 0)))
-            n = ctx.choose(cap + 1, "len@" + p)
+            if self.depth == 0 and pol.root_lens:
+                lens = [x for x in pol.root_lens if x <= max(cap, max(pol.root_lens))]
+                n = lens[ctx.choose(len(lens), "len@" + p)]
+            else:
+                n = ctx.choose(cap + 1, "len@" + p)
             ctx.side["items_used"] = ctx.side.get("items_used", 0) + n
             self.items = [InputNode("%s[%d]" % (p, i), self.policy, self.depth + 1) for i in range(n)]
         elif k == "Map":
@@ -97,8 +108,8 @@ class InputNode:
                 cap = max(0, min(cap, pol.max_total_entries - ctx.side.get("entries_used", 0)))
             n = ctx.choose(cap + 1, "len@" + p)
             ctx.side["entries_used"] = ctx.side.get("entries_used", 0) + n
-            self.entries = [(InputNode("%s{%d}k" % (p, i), self.policy, self.depth + 1),
-                             InputNode("%s{%d}v" % (p, i), self.policy, self.depth + 1)) for i in range(n)]
+            self.entries = [(InputNode("%s{%d}k" % (p, i), self.policy, self.depth + 1, "key"),
+                             InputNode("%s{%d}v" % (p, i), self.policy, self.depth + 1, "value")) for i in range(n)]
         return k
 
     def materialize(self, ctx):
